@@ -5,7 +5,7 @@ SPEC = {
     'variants': ['', 't32'],
     'lean_modules': ['N2k.Props.C01'], 'props_files': ['N2k/Props/C01.lean'],
     'translators': ['pgn_tables'],
-    'case_start': ['reset'],
+    'case_start': ['reset', 'reset0'],
     'trusted_base': ["PGN classification tables are REGENERATED from src/NMEA2000.cpp on every run (tools/translators/pgn_tables.py, "
                      "regex over g++ -E output) and the classification theorems are re-proved against them by decide +kernel",
                      "frozen specification: lean/N2k/Spec/J1939.lean (identifier, fast-packet format, receiver reassembly) and "
